@@ -81,6 +81,6 @@ CLAIM = {
     "level": "other",
     "design_ref": "DESIGN.md section 4 C18",
     "technique": "static: extraction of a wire manifest (labels, separators, hash/PRG types, layouts, codecs) and comparison with a frozen reference; re-evaluation of reference schedule and formulas",
-    "text": "Any two-sided change that alters what is absorbed, how challenges or generators are derived, what is proved, or the encoding layout differs from the frozen manifest or the reference formulas, although the tree stays self-consistent.",
+    "text": "Any two-sided change that alters what is absorbed, how challenges or generators are derived, what is proved, how variables and gates are numbered or what an expression denotes (C16/C15 rules by reference), or the encoding layout differs from the frozen manifest or the reference formulas, although the tree stays self-consistent.",
     "note": "trusted: the frozen manifest was produced from the pinned tree and reviewed (spec/wire_manifest.json)",
 }
